@@ -91,6 +91,8 @@ TECHNIQUE += '; strided-memoryview lint (address of a non-contiguous view handed
 
 EXPLANATION += ' R06.14 every memoryview whose address is taken is declared contiguous; R06.12 also: a per-layer tuple shorter or longer than layer_types is refused before any tuple is indexed.'
 
+EXPLANATION += ' R06.15 the dimension arguments of the LAPACK solve describe the surface matrix as it was filled (no read of unwritten stack memory).'
+
 def run(chk):
     repo = Repo(chk.repo)
     ms = repo.by_path('TidalPy/RadialSolver/solver.pyx')
@@ -110,6 +112,20 @@ def run(chk):
     index_width_lint(chk, repo, 'R06.10', ['TidalPy/RadialSolver/**/*.pyx', 'TidalPy/utilities/dimensions/*.pyx'])
     from .common import precision_lint
     precision_lint(chk, repo, 'R06.11', ['TidalPy/RadialSolver/**/*.pyx', 'TidalPy/utilities/dimensions/*.pyx'])
+    # R06.15: LAPACK reads the matrix through the dimension arguments it is given (N, LDA, LDB): if they do not describe the matrix as the routine filled it, the factorisation
+    #         reads stack memory nobody wrote (C02's surface-system rule, taken under C06 for its memory side)
+    from . import c02 as _c02
+    from .common import RuleAlias, make_eq as _make_eq
+    from ..core import expr as _X
+    _d15 = _X.Decider(seed=chk.seed + 15, k=2)
+    class _DimOnly(RuleAlias):
+        # only the memory side of the rule is C06's: a system whose VALUES are wrong (another right-hand side, another component) is C02's business
+        def ob(self, rule, instance, ok, detail='', where='', key=None, method=''):
+            if not ok and 'dimension arguments' not in str(detail): ok = True; detail = ''
+            return RuleAlias.ob(self, rule, instance + ' [dimension arguments N, LDA, LDB]', ok, detail, where, key, method)
+    al15 = _DimOnly(chk, 'R06.15', lambda rule, inst: rule == 'R02.1')
+    _c02.surface(al15, repo, _d15, _make_eq(al15, _d15))
+    chk.floor('R06.15', 6)
     from .common import strided_view_lint
     strided_view_lint(chk, repo, 'R06.14', ['TidalPy/RadialSolver/**/*.pyx', 'TidalPy/utilities/dimensions/*.pyx'])
     chk.floor('R06.5', 2); chk.floor('R06.6', 4); chk.floor('R06.7', 1)
